@@ -512,9 +512,13 @@ def _resize_discr(discr, newshp, offset, discr_kwargs):
             if off is None:
                 num_r = n_diff // 2
                 num_l = n_diff - num_r
-            else:
+            elif n_diff >= 0:
                 num_r = n_diff - off
                 num_l = off
+            else:
+                # Shrinking: `off` cells are removed from the left
+                num_l = -off
+                num_r = n_diff + off
         else:
             num_l, num_r = 0, 0
 
